@@ -38,6 +38,12 @@ fn real_main() {
         let st = std::process::Command::new(exe).arg(&args[2]).arg(seed).status().expect("cttrace");
         std::process::exit(st.code().unwrap_or(2));
     }
+    // a logger that formats every record is installed for every check; except in the C17 check (which reads the
+    // records at a fixed level) the level flips between Trace and Off from one call into the crate to the next
+    props_runtime::install_logger();
+    if prop != "C17" {
+        imp::LOG_FLIP.store(true, std::sync::atomic::Ordering::Relaxed);
+    }
     let thorough = args[2] == "thorough";
     let seed: u64 = args.get(3).and_then(|s| s.parse().ok()).unwrap_or(20260929);
     let mut ctx = Ctx { rng: Rng::new(seed), drv: driver::Driver::spawn(), rep: Report::default(), thorough, seed };
